@@ -31,7 +31,7 @@ def pool():
     P += [X.Ln((0, 0, 0), (1, 0, 0)), X.Ln((0, 0, 0), (2, 1, 1)), X.Ln((0, H, 0), (1, 0, 0)), X.Ln((H, Q, Q), (0, 0, 1)),
           X.Ln((1, 0, 0), (0, 1, 1)), X.Ln((5, 5, 5), (1, 0, 0))]
     P += [X.Hl((0, 0, 0), (1, 0, 0)), X.Hl((1, 0, 0), (-1, 0, 0)), X.Hl((H, Q, Q), (1, 1, 1)), X.Hl((3, 0, 0), (-1, 0, 0)),
-          X.Hl((1, H, 0), (0, 0, 1)), X.Hl((1, H, -1), (0, 0, -1))]
+          X.Hl((1, H, 0), (0, 0, 1)), X.Hl((1, H, -1), (0, 0, -1)), X.Hl((0, 1, 1), (2, 0, 0)), X.Hl((3, 1, 1), (-1, 0, 0))]
     P += [X.Sg((0, 0, 0), (2, 0, 0)), X.Sg((0, 0, 0), (1, 0, 0)), X.Sg((1, 0, 0), (3, 0, 0)), X.Sg((0, 0, 0), (2, 1, 1)),
           X.Sg((H, Q, Q), (H, Q, 2)), X.Sg((0, 0, 0), (0, 2, 0)), X.Sg((2, 0, 0), (0, 2, 0)), X.Sg((1, H, H), (Q, Q, 3 * H))]   # last: inside the oblique face
     P += [X.Pl((0, 0, 0), (0, 0, 1)), X.Pl((1, 0, 0), (1, 0, 0)), X.Pl((2, 0, 0), (1, 1, 1)), X.Pl((1, 0, 0), (1, 1, 1)),
@@ -53,8 +53,8 @@ def pool():
 
 def quick_pool():
     P = pool()
-    keep = [0, 1, 3, 4, 6, 7, 9, 10, 12, 13, 14, 17, 18, 19, 21, 22, 25, 26, 27, 28, 31, 32, 33, 35, 37, 38, 39]
-    return [P[i] for i in keep]
+    # every second object plus all bodies
+    return [o for i, o in enumerate(P) if i % 2 == 0 or o[0] in X.BODY]
 
 
 def vertex_viols(fam, a, b, la, lb, r, e, path):
@@ -192,7 +192,7 @@ def eval_scene(fam, s, famobj=None):
 
 def families(tier):
     if tier == 'quick':
-        return [Closure(A.P0, pool(), 2)]
+        return [Closure(A.P0, pool(), 2), Closure(A.P1, quick_pool(), 2)]
     return [Closure(p, pool(), 2) for p in (A.P0, A.P1, A.P2, A.P3)]
 
 
